@@ -5,3 +5,7 @@ import panelmat
 def run(tier, seed, build):
     return panelmat.run_prop("C07", ["fext", "static"], tier, seed, build,
                              what="the virtual-work load vector / the exact backward-error criterion of K c = f")
+
+
+def replay(path, build):
+    return panelmat.replay_file("C07", path, build)
